@@ -1905,3 +1905,57 @@ func init() {
 			return out
 		}})
 }
+
+// ---- MULDEG
+//
+// Products of two ciphertexts are only defined when the degrees of the operands add up to at most 2: the tensoring
+// code has exactly three output components. Every multiplication entry point obtains its output shape from
+// InitOutputBinaryOp with the constant bound 2, which is what turns "operand degree too high" into an error. Passing
+// op0.Degree()+op1.Degree() (the bound used by additions) accepts any operands and the tensoring then indexes past
+// its buffers or drops components.
+func scanMulDeg(c *core.Ctx) []ob {
+	var out []ob
+	n := 0
+	c.FuncDecls(func(pk *packages.Package, file *ast.File, fd *ast.FuncDecl) {
+		rel := core.ShortPkg(pk.PkgPath)
+		if fd.Body == nil || fd.Recv == nil || !strings.HasPrefix(rel, "schemes/") || fileIsTestSupport(c.Program, fd.Pos()) {
+			return
+		}
+		if !(strings.HasPrefix(fd.Name.Name, "Mul") || strings.HasPrefix(fd.Name.Name, "mul")) {
+			return
+		}
+		info := pk.TypesInfo
+		fkey := core.FuncKey(pk, fd)
+		ord := 0
+		ast.Inspect(fd.Body, func(x ast.Node) bool {
+			call, ok := x.(*ast.CallExpr)
+			if !ok || calleeName(info, call) != "InitOutputBinaryOp" || len(call.Args) != 4 {
+				return true
+			}
+			ord++
+			n++
+			key := fmt.Sprintf("MULDEG:%s#%d", fkey, ord)
+			props := metaProps(fkey)
+			if tv, ok := info.Types[call.Args[2]]; ok && tv.Value != nil && tv.Value.ExactString() == "2" {
+				out = append(out, withProps(okOb("MULDEG", key, c.Rel(call.Pos()), "output shape requested with the constant degree bound 2", true), props...))
+			} else {
+				out = append(out, withProps(violOb("MULDEG", key, c.Rel(call.Pos()), fmt.Sprintf("%s asks InitOutputBinaryOp for the degree bound %s instead of the constant 2: operands whose degrees add up to more than 2 are no longer refused with an error", fkey, exprString(call.Args[2]))), props...))
+			}
+			return true
+		})
+	})
+	c.Stats["muldeg_sites"] = n
+	return out
+}
+
+func init() {
+	core.Register(&core.Rule{Name: "MULDEG", Props: []string{"C05", "C06"},
+		Doc: "every multiplication entry point of the scheme evaluators calls InitOutputBinaryOp with the constant degree bound 2 (the documented 'operand degree too high' error)",
+		Run: func(c *core.Ctx) []ob {
+			out := scanMulDeg(c)
+			for _, o := range core.Floor("MULDEG", nil, "InitOutputBinaryOp calls in multiplications", c.Stats["muldeg_sites"], 8) {
+				out = append(out, withProps(o, "C05", "C06"))
+			}
+			return out
+		}})
+}
